@@ -1,34 +1,463 @@
 // Contract stubs for string-consuming library functions on symbolic strings
-// (atoms). See DESIGN.md §3.6.
+// (atoms), and the inversion that turns a solver model back into concrete
+// text for the native replay. See DESIGN.md §3.6.
+//
+// A symbolic string is a term of the uninterpreted sort Str: an input atom
+// (vStr), a token/part made by a stub, a literal, strcat(a,b), ipstr(ip32) or
+// b2sN(bytes). Library functions on atoms are uninterpreted functions of the
+// atom (same atom, same answer); every such function is also applied to every
+// string literal the path meets, with its natively computed value, so that an
+// atom that equals a literal behaves exactly like the literal (congruence).
 
 package interp
 
+import (
+	"fmt"
+	"go/types"
+	"net"
+	"strconv"
+	"strings"
+	"time"
+
+	"golang.org/x/tools/go/ssa"
+)
+
+type splitKey struct {
+	t   *Term
+	sep string
+}
+
 type strFact struct {
-	kind string
+	kind string // fields, split, parsecidr, hostcidr, parseuint, parseip, parsedur
 	src  *Term
 	outs []*Term
+	sep  string
+	n    int
 }
 
 func (w *worker) noteStrFact(kind string, src *Term, outs ...*Term) {
-	w.strFacts = append(w.strFacts, strFact{kind, src, outs})
+	w.strFacts = append(w.strFacts, strFact{kind: kind, src: src, outs: outs})
+	for _, o := range outs {
+		if o.w == wStr {
+			w.auxStr = append(w.auxStr, o)
+		} else {
+			w.auxBV = append(w.auxBV, o)
+		}
+	}
+	if src != nil && src.w == wStr {
+		w.auxStr = append(w.auxStr, src)
+	}
 }
 
-func registerStringStubs() {}
+func (w *worker) freshStr(prefix string) *Term {
+	w.nstr++
+	t := mkVar(wStr, fmt.Sprintf("%s%d", prefix, w.nstr))
+	w.auxStr = append(w.auxStr, t)
+	return t
+}
 
+// litFuncs: native evaluation of the string functions on literals.
+// The key is the UF name; the result is the value the UF must have on lit.
+func litFuncValue(name, lit string) (uint64, int, bool) {
+	switch {
+	case name == "strlen":
+		return uint64(len(lit)), 64, true
+	case strings.HasPrefix(name, "pu_"):
+		// pu_<base>_<bits>_(ok|val)
+		f := strings.Split(name, "_")
+		if len(f) != 4 {
+			return 0, 0, false
+		}
+		base, _ := strconv.Atoi(f[1])
+		bits, _ := strconv.Atoi(f[2])
+		v, err := strconv.ParseUint(lit, base, bits)
+		if f[3] == "ok" {
+			return b2u(err == nil), 0, true
+		}
+		if err != nil {
+			return 0, 64, false // value irrelevant when not ok
+		}
+		return v, 64, true
+	case strings.HasPrefix(name, "parsecidr_"):
+		ip, ipn, err := net.ParseCIDR(lit)
+		if err == nil && ip.To4() == nil {
+			err = fmt.Errorf("not v4") // only IPv4 text is modelled as ok
+		}
+		switch name {
+		case "parsecidr_ok":
+			return b2u(err == nil), 0, true
+		case "parsecidr_ip":
+			if err != nil {
+				return 0, 32, false
+			}
+			i4 := ip.To4()
+			return uint64(i4[0])<<24 | uint64(i4[1])<<16 | uint64(i4[2])<<8 | uint64(i4[3]), 32, true
+		case "parsecidr_plen":
+			if err != nil {
+				return 0, 8, false
+			}
+			ones, _ := ipn.Mask.Size()
+			return uint64(ones), 8, true
+		}
+	case strings.HasPrefix(name, "host_"):
+		ip, _, err := net.ParseCIDR(lit + "/32")
+		if err == nil && ip.To4() == nil {
+			err = fmt.Errorf("not v4")
+		}
+		if name == "host_ok" {
+			return b2u(err == nil), 0, true
+		}
+		if err != nil {
+			return 0, 32, false
+		}
+		i4 := ip.To4()
+		return uint64(i4[0])<<24 | uint64(i4[1])<<16 | uint64(i4[2])<<8 | uint64(i4[3]), 32, true
+	case strings.HasPrefix(name, "parseip_"):
+		ip := net.ParseIP(lit)
+		ok := ip != nil && ip.To4() != nil
+		if name == "parseip_ok" {
+			return b2u(ok), 0, true
+		}
+		if !ok {
+			return 0, 32, false
+		}
+		i4 := ip.To4()
+		return uint64(i4[0])<<24 | uint64(i4[1])<<16 | uint64(i4[2])<<8 | uint64(i4[3]), 32, true
+	case strings.HasPrefix(name, "parsedur_"):
+		d, err := time.ParseDuration(lit)
+		if name == "parsedur_ok" {
+			return b2u(err == nil), 0, true
+		}
+		if err != nil {
+			return 0, 64, false
+		}
+		return uint64(d), 64, true
+	}
+	return 0, 0, false
+}
 
-// strValue returns the concrete string a model assigns to a Str input. The
-// replay-side reconstruction of structured strings (tokens, CIDRs, numbers)
-// from the recorded facts happens in strinv.go.
+func isStrFunc(name string) bool {
+	return name == "strlen" || strings.HasPrefix(name, "pu_") || strings.HasPrefix(name, "parsecidr_") ||
+		strings.HasPrefix(name, "host_") || strings.HasPrefix(name, "parseip_") || strings.HasPrefix(name, "parsedur_")
+}
+
+func registerStringStubs() {
+	specials["strings.Fields"] = func(i *interpreter, fr *frame, fn *ssa.Function, args []value) value {
+		switch s := args[0].(type) {
+		case string:
+			f := strings.Fields(s)
+			out := make([]value, len(f))
+			for j := range f {
+				out[j] = f[j]
+			}
+			return out
+		case symstr:
+			return i.symFields(s)
+		}
+		panic("strings.Fields: bad argument")
+	}
+	specials["strings.Split"] = func(i *interpreter, fr *frame, fn *ssa.Function, args []value) value {
+		sep, ok := args[1].(string)
+		if !ok {
+			unsupported("strings.Split with a symbolic separator")
+		}
+		switch s := args[0].(type) {
+		case string:
+			f := strings.Split(s, sep)
+			out := make([]value, len(f))
+			for j := range f {
+				out[j] = f[j]
+			}
+			return out
+		case symstr:
+			return i.symSplit(s, sep)
+		}
+		panic("strings.Split: bad argument")
+	}
+	specials["strconv.ParseUint"] = func(i *interpreter, fr *frame, fn *ssa.Function, args []value) value {
+		errT := fn.Signature.Results().At(1).Type()
+		base, bits := int(asInt64(args[1])), int(asInt64(args[2]))
+		switch s := args[0].(type) {
+		case string:
+			v, err := strconv.ParseUint(s, base, bits)
+			if err != nil {
+				return tuple{v, i.opaqueError("strconv.ParseUint: invalid syntax or out of range")}
+			}
+			return tuple{v, zero(errT)}
+		case symstr:
+			if bits == 0 {
+				bits = 64
+			}
+			okT := mkUF(fmt.Sprintf("pu_%d_%d_ok", base, bits), 0, s.e)
+			valT := mkUF(fmt.Sprintf("pu_%d_%d_val", base, bits), 64, s.e)
+			i.w.noteStrFact("parseuint", s.e, okT, valT)
+			i.w.strFacts[len(i.w.strFacts)-1].n = base
+			if !i.w.decide(okT) {
+				return tuple{uint64(0), i.opaqueError("strconv.ParseUint: invalid syntax or out of range")}
+			}
+			if bits < 64 {
+				i.w.assume(mkBin(OpUlt, valT, mkConst(64, uint64(1)<<uint(bits))))
+			}
+			return tuple{mkSym(types.Uint64, valT), zero(errT)}
+		}
+		panic("strconv.ParseUint: bad argument")
+	}
+	specials["strconv.Atoi"] = func(i *interpreter, fr *frame, fn *ssa.Function, args []value) value {
+		errT := fn.Signature.Results().At(1).Type()
+		s, ok := args[0].(string)
+		if !ok {
+			unsupported("strconv.Atoi on a symbolic string")
+		}
+		v, err := strconv.Atoi(s)
+		if err != nil {
+			return tuple{v, i.opaqueError("strconv.Atoi: invalid syntax")}
+		}
+		return tuple{v, zero(errT)}
+	}
+	specials["strconv.Itoa"] = func(i *interpreter, fr *frame, fn *ssa.Function, args []value) value {
+		if v, ok := args[0].(int); ok {
+			return strconv.Itoa(v)
+		}
+		return symstr{mkUF("itoa", wStr, args[0].(sym).e)}
+	}
+}
+
+// symFields models strings.Fields on an atom: the number of tokens is
+// concretised (0..MaxTokens), the tokens are fresh atoms different from "".
+func (i *interpreter) symFields(s symstr) value {
+	w := i.w
+	if memo, ok := w.fieldsMemo[s.e]; ok {
+		// same atom, same tokens (the caller gets its own slice)
+		return append([]value{}, memo...)
+	}
+	k := w.ex.cfg.MaxTokens
+	if k == 0 {
+		k = 9
+	}
+	nT := w.newInput("aux_nfields", 64) // internal input: part of every model, skipped by the native replay
+	w.assume(mkBin(OpUle, nT, mkConst(64, uint64(k))))
+	n := int(w.pick(nT))
+	out := make([]value, n)
+	toks := make([]*Term, n)
+	empty := mkStrLit("")
+	if n >= 1 {
+		w.assume(mkNot(mkEq(s.e, empty))) // a string with a token is not the empty string
+	}
+	for j := 0; j < n; j++ {
+		toks[j] = w.freshStr("tok")
+		out[j] = symstr{toks[j]}
+		w.assume(mkNot(mkEq(toks[j], empty)))
+	}
+	w.strFacts = append(w.strFacts, strFact{kind: "fields", src: s.e, outs: toks, n: n})
+	w.auxStr = append(w.auxStr, s.e)
+	w.stubs[fmt.Sprintf("strings.Fields on an atom: <= %d fresh non-empty tokens", k)]++
+	w.fieldsMemo[s.e] = append([]value{}, out...)
+	return out
+}
+
+func sepCannotOccurInDottedQuad(sep string) bool {
+	for _, c := range sep {
+		if c == '.' || (c >= '0' && c <= '9') {
+			return false
+		}
+	}
+	return sep != ""
+}
+
+// symSplit models strings.Split(atom, sep): 1, 2 or "3 or more" parts.
+func (i *interpreter) symSplit(s symstr, sep string) value {
+	w := i.w
+	if s.e.op == OpUF && s.e.name == "ipstr" && sepCannotOccurInDottedQuad(sep) {
+		return []value{s}
+	}
+	key := splitKey{s.e, sep}
+	if memo, ok := w.splitMemo[key]; ok {
+		return append([]value{}, memo...)
+	}
+	nT := w.newInput("aux_nsplit", 64)
+	w.assume(mkBin(OpUle, mkConst(64, 1), nT))
+	w.assume(mkBin(OpUle, nT, mkConst(64, 3)))
+	n := int(w.pick(nT))
+	w.stubs["strings.Split on an atom: 1, 2 or 3(=3 or more) parts"]++
+	if n == 1 {
+		w.strFacts = append(w.strFacts, strFact{kind: "split", src: s.e, outs: []*Term{s.e}, sep: sep, n: 1})
+		w.auxStr = append(w.auxStr, s.e)
+		w.splitMemo[key] = []value{s}
+		return []value{s}
+	}
+	out := make([]value, n)
+	parts := make([]*Term, n)
+	for j := 0; j < n; j++ {
+		parts[j] = w.freshStr("part")
+		out[j] = symstr{parts[j]}
+	}
+	w.strFacts = append(w.strFacts, strFact{kind: "split", src: s.e, outs: parts, sep: sep, n: n})
+	w.auxStr = append(w.auxStr, s.e)
+	w.splitMemo[key] = append([]value{}, out...)
+	return out
+}
+
+// hostCIDR is ParseCIDR(X + "/32") for an atom X.
+func (i *interpreter) hostCIDR(x *Term, errT types.Type) value {
+	w := i.w
+	mk4 := func(t *Term) value {
+		out := make([]value, 4)
+		for j := 0; j < 4; j++ {
+			out[j] = mkSym(types.Uint8, mkExtract(t, 31-8*j, 24-8*j))
+		}
+		return out
+	}
+	var ip *Term
+	if x.op == OpUF && x.name == "ipstr" {
+		ip = x.args[0]
+	} else {
+		ok := mkUF("host_ok", 0, x)
+		ip = mkUF("host_ip", 32, x)
+		w.noteStrFact("hostcidr", x, ok, ip)
+		if !w.decide(ok) {
+			return tuple{[]value(nil), (*value)(nil), i.opaqueError("invalid CIDR address")}
+		}
+	}
+	ip16 := make([]value, 16)
+	for j := 0; j < 10; j++ {
+		ip16[j] = uint8(0)
+	}
+	ip16[10], ip16[11] = uint8(0xff), uint8(0xff)
+	copy(ip16[12:], mk4(ip).([]value))
+	ones := []value{uint8(255), uint8(255), uint8(255), uint8(255)}
+	return tuple{ip16, i.ipNetValue(mk4(ip), ones), zero(errT)}
+}
+
+// ---------------------------------------------------------------------------
+// Inversion: model -> concrete text.
+
+// strValue returns the concrete string a model assigns to a Str input.
 func (w *worker) strValue(in *Term, m *model) string {
 	if m == nil {
 		return ""
 	}
-	s, ok := m.str[in.name]
-	if !ok {
-		return "~" + in.name + "~"
+	inv := &inverter{w: w, m: m, memo: map[*Term]string{}, fresh: map[string]string{}}
+	return inv.value(in)
+}
+
+type inverter struct {
+	w     *worker
+	m     *model
+	memo  map[*Term]string
+	fresh map[string]string
+}
+
+func (iv *inverter) factFor(kind string, src *Term) *strFact {
+	for k := range iv.w.strFacts {
+		f := &iv.w.strFacts[k]
+		if f.kind == kind && f.src == src {
+			return f
+		}
 	}
-	if len(s) > 0 && s[0] == 0 {
-		return "~" + s[7:] + "~"
+	return nil
+}
+
+func (iv *inverter) bv(t *Term) (uint64, bool) {
+	v, ok := iv.m.tv[t]
+	return v, ok
+}
+
+func (iv *inverter) value(t *Term) string {
+	if s, ok := iv.memo[t]; ok {
+		return s
 	}
+	s := iv.compute(t)
+	iv.memo[t] = s
+	return s
+}
+
+func (iv *inverter) compute(t *Term) string {
+	switch t.op {
+	case OpStrLit:
+		return t.name
+	case OpUF:
+		switch {
+		case t.name == "strcat":
+			return iv.value(t.args[0]) + iv.value(t.args[1])
+		case t.name == "ipstr":
+			v, _ := iv.m.eval(t.args[0], map[*Term]uint64{})
+			return fmt.Sprintf("%d.%d.%d.%d", byte(v>>24), byte(v>>16), byte(v>>8), byte(v))
+		case isB2S(t):
+			b := make([]byte, len(t.args))
+			for j, a := range t.args {
+				v, _ := iv.m.eval(a, map[*Term]uint64{})
+				b[j] = byte(v)
+			}
+			return string(b)
+		}
+	}
+	abs, known := iv.m.ts[t]
+	// structured by a stub? (structure wins over an accidental equality with a literal)
+	if f := iv.factFor("fields", t); f != nil {
+		if f.n == 0 {
+			if known && abs == "" {
+				return ""
+			}
+			return " "
+		}
+		parts := make([]string, len(f.outs))
+		for j, o := range f.outs {
+			parts[j] = iv.value(o)
+		}
+		return strings.Join(parts, " ")
+	}
+	// a variable: equal to a literal in the model?
+	if known && !strings.HasPrefix(abs, "\x00") {
+		return abs
+	}
+	if f := iv.factFor("split", t); f != nil && f.n >= 2 {
+		parts := make([]string, len(f.outs))
+		for j, o := range f.outs {
+			parts[j] = iv.value(o)
+		}
+		return strings.Join(parts, f.sep)
+	}
+	if f := iv.factFor("parsecidr", t); f != nil {
+		if ok, _ := iv.bv(f.outs[0]); ok != 0 {
+			ip, _ := iv.bv(f.outs[1])
+			pl, _ := iv.bv(f.outs[2])
+			return fmt.Sprintf("%d.%d.%d.%d/%d", byte(ip>>24), byte(ip>>16), byte(ip>>8), byte(ip), pl)
+		}
+	}
+	if f := iv.factFor("hostcidr", t); f != nil {
+		if ok, _ := iv.bv(f.outs[0]); ok != 0 {
+			ip, _ := iv.bv(f.outs[1])
+			return fmt.Sprintf("%d.%d.%d.%d", byte(ip>>24), byte(ip>>16), byte(ip>>8), byte(ip))
+		}
+	}
+	if f := iv.factFor("parseip", t); f != nil {
+		if ok, _ := iv.bv(f.outs[0]); ok != 0 {
+			ip, _ := iv.bv(f.outs[1])
+			return fmt.Sprintf("%d.%d.%d.%d", byte(ip>>24), byte(ip>>16), byte(ip>>8), byte(ip))
+		}
+	}
+	if f := iv.factFor("parseuint", t); f != nil {
+		if ok, _ := iv.bv(f.outs[0]); ok != 0 {
+			v, _ := iv.bv(f.outs[1])
+			return strconv.FormatUint(v, f.n)
+		}
+	}
+	if f := iv.factFor("parsedur", t); f != nil {
+		if ok, _ := iv.bv(f.outs[0]); ok != 0 {
+			v, _ := iv.bv(f.outs[1])
+			return time.Duration(int64(v)).String()
+		}
+	}
+	// unconstrained: a fresh word (fails every parser, equals no literal,
+	// contains no separator); equal abstract values get equal words
+	key := abs
+	if !known {
+		key = "t:" + t.name
+	}
+	if s, ok := iv.fresh[key]; ok {
+		return s
+	}
+	s := fmt.Sprintf("zq%dx", len(iv.fresh))
+	iv.fresh[key] = s
 	return s
 }
